@@ -215,7 +215,8 @@ Definition unq_plain (n : N) : bool :=
 (* bytes before which a backslash is an escape inside double quotes (besides newline) *)
 Definition dq_special (n : N) : bool := (n =? 36) || (n =? 96) || (n =? 34) || (n =? 92).
 
-Definition emit (n acc : list ascii) : string * string := (of_chars (rev n), of_chars (rev acc)).
+(* ([rev_append _ []] is List.rev in linear time: values of 128 KiB go through here) *)
+Definition emit (n acc : list ascii) : string * string := (of_chars (rev_append n []), of_chars (rev_append acc [])).
 
 Definition step (st : shst) (c : ascii) : option shst :=
   let n := N_of_ascii c in
@@ -308,3 +309,75 @@ Definition params_ok (p : shell_params) : bool :=
   String.eqb (sp_prefix p) kw_export && String.eqb (sp_suffix p) lf && String.eqb (sp_sep p) "="
   && forallb (fun n => Bool.eqb (memN n (sp_escaped p)) (dq_special n)) (bytes_upto 256)
   && no_nul (sp_secret p) && no_nul (sp_unknown_path p) && no_nul (sp_unknown_value p).
+
+(* ---------------------------------------------------------------------------------------------------------
+   3. real interpreters: variables they treat specially
+   ---------------------------------------------------------------------------------------------------------
+   [sh_eval] reads a script as POSIX describes `export NAME=word` for an ordinary variable.  Real interpreters keep
+   variables of their own for which `export NAME=word` is NOT "assign and export": read-only variables (the
+   assignment is refused with a diagnostic), variables whose value the interpreter computes when it is read, array /
+   no-assign variables (the assignment is dropped or never reaches the environment), and variables whose new value is
+   validated with a diagnostic.  The lists below were MEASURED (dash 0.5.12, bash 5.2.15, mvdan.cc/sh v3.7.0: the
+   script `export NAME="v a l"` / `="7"` / `=""`, alone and between two other exports, for 130 candidate names, observed
+   through /usr/bin/env -0) and are
+   re-measured by the "probe" family of every run of the check (evidence: distribution.special_names):
+     dash   OPTIND                                   non-numeric value: "Illegal number", the shell exits
+     bash   UID EUID PPID BASHOPTS SHELLOPTS BASH_VERSINFO                     read-only
+            LINENO RANDOM SRANDOM SECONDS EPOCHSECONDS EPOCHREALTIME BASHPID BASH_COMMAND BASH_SUBSHELL HISTCMD _
+            PIPESTATUS                               computed on reading / rewritten after every command (the exported
+                                                     value is not the given one; PIPESTATUS survives only as the very
+                                                     first command of the script)
+            GROUPS DIRSTACK FUNCNAME BASH_ALIASES BASH_CMDS BASH_LINENO BASH_SOURCE BASH_ARGC BASH_ARGV
+                                                     arrays / no-assign: nothing reaches the environment
+            OPTIND BASH_COMPAT BASH_XTRACEFD LC_ALL LC_COLLATE LC_CTYPE LC_MESSAGES LC_NUMERIC LC_TIME
+                                                     validated: a diagnostic on stderr unless the value is acceptable
+     mvdan  UID EUID GID                             read-only (the run is aborted);  DIRSTACK  diagnostic
+   Everything else that is special to a shell's OWN later behaviour (IFS PATH PS1 PS2 PS4 PWD OLDPWD SHLVL HOME ENV
+   LANG TZ TERM MAIL CDPATH TMOUT POSIXLY_CORRECT ...) is exported with exactly the given value and nothing else
+   observable happens in any of the three: these names are ordinary for the property (that the interpreter then
+   behaves differently is the meaning of the export, not another effect).
+
+   [sh_eval_in special script]: the reading of the script by an interpreter with the special names [special]: no
+   claim ([OtherEffect]) as soon as one of them is exported. *)
+
+Definition mem_str (k : string) (l : list string) : bool := existsb (String.eqb k) l.
+
+Definition dash_special : list string := ["OPTIND"].
+
+Definition bash_special : list string :=
+  ["UID"; "EUID"; "PPID"; "BASHOPTS"; "SHELLOPTS"; "BASH_VERSINFO";
+   "LINENO"; "RANDOM"; "SRANDOM"; "SECONDS"; "EPOCHSECONDS"; "EPOCHREALTIME"; "BASHPID"; "BASH_COMMAND";
+   "BASH_SUBSHELL"; "HISTCMD"; "_"; "PIPESTATUS";
+   "GROUPS"; "DIRSTACK"; "FUNCNAME"; "BASH_ALIASES"; "BASH_CMDS"; "BASH_LINENO"; "BASH_SOURCE"; "BASH_ARGC"; "BASH_ARGV";
+   "OPTIND"; "BASH_COMPAT"; "BASH_XTRACEFD"; "LC_ALL"; "LC_COLLATE"; "LC_CTYPE"; "LC_MESSAGES"; "LC_NUMERIC"; "LC_TIME"].
+
+Definition mvdan_special : list string := ["UID"; "EUID"; "GID"; "DIRSTACK"].
+
+Definition interpreters : list (list string) := [dash_special; bash_special; mvdan_special].
+
+Definition exports_special (special : list string) (l : list (string * string)) : bool :=
+  existsb (fun kv => mem_str (fst kv) special) l.
+
+Definition sh_eval_in (special : list string) (script : string) : sh_result :=
+  match sh_eval script with
+  | Exports l => if exports_special special l then OtherEffect else Exports l
+  | OtherEffect => OtherEffect
+  end.
+
+(* a name that is ordinary in all three interpreters *)
+Definition portable_name (k : string) : bool :=
+  valid_name k && negb (mem_str k (dash_special ++ bash_special ++ mvdan_special)).
+
+(* hypotheses relative to an interpreter *)
+Definition pair_ok_in (special : list string) (kv : string * string) : bool :=
+  pair_ok kv && negb (mem_str (fst kv) special).
+
+(* ---- known finding C17-file-shadows-variable -------------------------------------------------------------
+   PrepareEnvironment appends the `files` pairs after the `environmentVariables` pairs: when a scalar entry of
+   environmentVariables and a scalar entry of files have the same key, the script exports the name twice and the
+   temporary file's path wins, so that variable does not get its value.  The class is decidable: *)
+Definition shadowed (p : shell_params) (files : list entry) (k : string) : bool :=
+  mem_str k (map fst (scalars p files)).
+
+Definition kf_file_shadows (p : shell_params) (vars files : list entry) : bool :=
+  existsb (fun kv => shadowed p files (fst kv)) (scalars p vars).
